@@ -170,6 +170,39 @@ type failHandler struct {
 	t *Thread
 }
 
+// The value a layer below panics with, and the error it fails with, must not matter: rotate
+// through the kinds that occur in practice (a string, a plain error, the io sentinels a handler
+// may pass on from a backend that went away, a runtime error).
+func injectedPanic(n int) interface{} {
+	switch n % 5 {
+	case 0:
+		return "injected panic below the locking wrapper"
+	case 1:
+		return io.EOF
+	case 2:
+		return fmt.Errorf("injected panic (error value)")
+	case 3:
+		return io.ErrUnexpectedEOF
+	}
+	var m map[string]int
+	defer func() {}()
+	return func() (v interface{}) {
+		defer func() { v = recover() }()
+		m["x"] = 1 // runtime error: assignment to entry in nil map
+		return nil
+	}()
+}
+
+func injectedError(n int) error {
+	switch n % 3 {
+	case 0:
+		return fmt.Errorf("injected I/O error")
+	case 1:
+		return io.EOF
+	}
+	return io.ErrUnexpectedEOF
+}
+
 func (f failHandler) hit() bool {
 	i := f.t.calls
 	f.t.calls++
@@ -179,9 +212,9 @@ func (f failHandler) boom() error {
 	f.t.failed = true
 	f.t.FailedAtReq = f.t.next
 	if f.t.FailKind == "panic" {
-		panic("injected panic below the locking wrapper")
+		panic(injectedPanic(f.t.FailAt))
 	}
-	return fmt.Errorf("injected I/O error")
+	return injectedError(f.t.FailAt)
 }
 func (f failHandler) Set(c common.SetRequest) error {
 	if f.hit() {
@@ -236,11 +269,11 @@ func (f failHandler) Get(c common.GetRequest) (<-chan common.GetResponse, <-chan
 		f.t.failed = true
 		f.t.FailedAtReq = f.t.next
 		if f.t.FailKind == "panic" {
-			panic("injected panic below the locking wrapper")
+			panic(injectedPanic(f.t.FailAt))
 		}
 		d := make(chan common.GetResponse)
 		e := make(chan error, 1)
-		e <- fmt.Errorf("injected I/O error")
+		e <- injectedError(f.t.FailAt)
 		close(d)
 		close(e)
 		return d, e
@@ -252,11 +285,11 @@ func (f failHandler) GetE(c common.GetRequest) (<-chan common.GetEResponse, <-ch
 		f.t.failed = true
 		f.t.FailedAtReq = f.t.next
 		if f.t.FailKind == "panic" {
-			panic("injected panic below the locking wrapper")
+			panic(injectedPanic(f.t.FailAt))
 		}
 		d := make(chan common.GetEResponse)
 		e := make(chan error, 1)
-		e <- fmt.Errorf("injected I/O error")
+		e <- injectedError(f.t.FailAt)
 		close(d)
 		close(e)
 		return d, e
